@@ -451,7 +451,19 @@ fn main() {
                         let stderr = String::from_utf8_lossy(&out.stderr);
                         let tail: String = stderr.lines().rev().take(6).collect::<Vec<_>>().join(" | ");
                         let mut r = ShardResult::default();
-                        if !case.is_empty() && case.starts_with("abort-is-violation:") {
+                        // killed by a signal while the outermost guarded library call was running
+                        // (flag file 'L'), for a property whose statement leaves no room for that
+                        // (termination / totality / "fails with the documented error or succeeds")
+                        let in_library = {
+                            use std::os::unix::process::ExitStatusExt;
+                            let mut f = prog.clone().into_os_string();
+                            f.push(".lib");
+                            out.status.signal().is_some() && std::fs::read(&f).map(|b| b.first() == Some(&b'L')).unwrap_or(false)
+                        };
+                        const ABORT_IS_VIOLATION: &[&str] = &["C03", "C04", "C10", "C12", "C13", "C14", "C15"];
+                        if (in_library && ABORT_IS_VIOLATION.contains(&id.as_str()))
+                            || (!case.is_empty() && case.starts_with("abort-is-violation:"))
+                        {
                             r.violations.push(Violation {
                                 key: format!("{id}:abort"),
                                 what: format!("shard {i} aborted ({:?}) during case {case}: {tail}", out.status),
